@@ -326,3 +326,20 @@ def run(ctx):
     if pc:
         lib.must_pass(ctx, '4k precheck-opens-db', pc, pc.call_sites('db::Db::open'), 'precheck_column_operation opens the database with the caller\'s options')
     shared.one_salt_per_handle(ctx, '5')
+    # 6. the metadata writer writes the format version it is given (CURRENT_VERSION only when it is given none): it never compares the
+    # version with anything - "normalising" a version it dislikes silently re-labels a database whose tables are in another format
+    wf = ctx.body('options::Options::write_metadata_file_with_version')
+    if wf:
+        cmp = []
+        vparams = [l for l in range(1, wf.argc + 1) if 'Option<u32>' in str(wf.locals[l])]
+        for fb in lib.family(F, wf.path):
+            for bi in fb.normal_blocks():
+                for st in fb.blocks[bi]['s']:
+                    if st['k'] == 'assign' and st['r']['k'] == 'bin' and st['r']['op'] in ('Eq', 'Ne', 'Lt', 'Le', 'Gt', 'Ge'):
+                        pls = [op_place(a) for a in st['r']['a'] if op_place(a) is not None]
+                        # an operand that IS the version: a u32 (the payload of the Option) derived from the parameter
+                        if fb is wf and any(str(fb.locals[pl[0]]) in ('u32', '&u32') and set(vparams) & set(backward_slice(fb, [pl]).params) for pl in pls):
+                            cmp.append(fb.loc(bi))
+        ctx.ob('6a0 version-parameter', 'anchor', wf.path, 'the metadata writer takes the version as an Option<u32> parameter', len(vparams) == 1, str(vparams))
+        ctx.ob('6a version-written-as-given', 'K3-guard', wf.path, 'the version parameter is not compared with anything before it is written', not cmp, 'compared at %s' % cmp)
+
